@@ -13,7 +13,7 @@ RULE = ("streams of 1..4 valid messages (whole grammar, library spelling and for
         "random k-cuts (quick); ALL 2-cut partitions of streams <= 150 chars and ALL 3-cut partitions of streams <= 100 chars "
         "(thorough). After every piece the delivered list must equal exactly the messages whose last character has arrived "
         "(decides loss, order, duplication, content and promptness at once); Buffer.process runs under a logical step budget. "
-        "The same oracle through the real transports: 2..3 TCP server (or client, control/BLOB mode) connection handlers of one process, "
+        "The same oracle through the real transports: 2..3 TCP server (or client, control/BLOB mode; or one TTY plus TCP server) connection handlers of one process, "
         "each fed its own stream in random pieces, the pieces interleaved round-robin / randomly / sequentially; deliveries are "
         "recorded per connection at the router call / callback. non-trivial = the partition cuts inside a message; distinct = hash(stream, threshold, cut positions)")
 ASSUMPTIONS = ["only elements no longer than the threshold are generated when a threshold is set",
@@ -155,7 +155,7 @@ def transport_case(ctx, i):
     character arrived on THAT connection."""
     from vf import transportx as T
     rng = ctx.rng("transport", i)
-    kind = ["server-tcp", "client-tcp"][i % 2]
+    kind = ["server-tcp", "client-tcp", "server-tcp", "client-tcp", "server-tty+tcp"][i % 5]
     nconn = rng.choice([2, 2, 3])
     for_blobs = [kind == "client-tcp" and rng.random() < 0.5 for _ in range(nconn)]
     conns = []
@@ -173,7 +173,8 @@ def transport_case(ctx, i):
     how = ["round-robin", "random", "random", "sequential"][(i // 2) % 4]
     schedule = T.interleavings(rng, [len(c[3]) for c in conns], how)
     case = {"mode": "transport", "i": i}
-    res, stats = T.run(kind, [c[3] for c in conns], schedule, for_blobs=for_blobs)
+    kinds = kind if kind != "server-tty+tcp" else ["server-tty"] + ["server-tcp"] * (nconn - 1)
+    res, stats = T.run(kinds, [c[3] for c in conns], schedule, for_blobs=for_blobs)
     ctx.count("transport_runs")
     ctx.count("transport_connections", nconn)
     ctx.count("transport_pieces_fed", len(res.after))
